@@ -145,6 +145,22 @@ def run(ctx):
             consts = [c for c in s.consts() if c.lstrip("-").isdigit()]
             ok = s.has_field("WriteMetadata", "start_idx") and s.has_field("WriteMetadata", "senders") and consts == ["1"] \
                 and bool(ops & {"Add", "AddWithOverflow"}) and bool(ops & {"Sub", "SubWithOverflow"}) and not (ops & {"Mul", "MulWithOverflow", "Div"})
+            # the key arithmetic start_idx + len - 1 is only the batch's LAST index when len >= 1: a sender-less batch (noop, config change:
+            # one payload, no sender) would be keyed at start_idx - 1 = the previous entry, REPLACING the in-flight write batch that ends there
+            cn = edge_conditions(mb)
+
+            def nonempty(c):
+                if not cond_reads_field(F, c, "WriteMetadata", "senders"):
+                    return False
+                if c.kind == "call" and re.search(r"::is_empty$", strip_generics(c.callee or "")):
+                    return c.truth is False
+                rel = cmp_rel(F, c, lambda x: x.has_field("WriteMetadata", "senders") and x.has_call(r"::len$"), lambda x: not x.has_field("WriteMetadata", "senders") and bool(x.consts()))
+                return rel in (">", ">=", "!=")
+            okn, witn, _ = guarded_by(mb, bi, nonempty, cn)
+            ctx.check("C29-b", "%s#insert-only-with-senders" % fkey(ex), okn, "a batch is registered for answering only when it has senders (key = last index is then well defined)",
+                      "pending_client_writes.insert is reachable with an EMPTY senders list: the key start_idx + 0 - 1 is the index of the previous log entry, so a sender-less "
+                      "batch (noop / AddNode / BatchPromote: one payload, no sender) appended right behind an uncommitted client batch replaces that batch's WriteMetadata and "
+                      "drops its response senders - those writes commit and apply but are never answered", loc(mb, bi), witn and bpath(mb, witn))
             ctx.check("C29-b", "%s#key=start_idx+len-1" % fkey(ex), ok, "batch is keyed by its last index start_idx + senders.len() - 1",
                       "pending_client_writes key is not start_idx + senders.len() - 1 (ops %s, constants %s): the batch is answered when a different index commits"
                       % (sorted(ops), consts), loc(mb, bi))
